@@ -22,7 +22,7 @@ LEVEL_TEXT = ("Generated validated queries with @defer/@stream (nested, labelled
               "ignores the directives: exact equality when error-free or propagation is disabled, the 'refines' relation otherwise.")
 LEVEL_NOTE = ("trusted: R3 (reference executor), R4 (merge model, vf/ref/incremental.py), the controlled loop; objects are compared unordered (deferred keys legitimately arrive later), lists ordered")
 TECHNIQUE = "runtime monitoring with schedule control: differential oracle (merge model + specification executor) over incremental payload histories"
-RULE = ("requests from G-doc over the rich schema with the three experimental directives added; fault rate in {0, .1, .25} (null, raise, returned exception, wrong shape, list source raising after its items); @experimental_disableErrorPropagation on 30% of the operations; "
+RULE = ("requests from G-doc over the rich schema with the three experimental directives added (1/11 of the seeds: over a generated valid schema with those directives added; 2/11: the split-defer and overlapping-defer template families); fault rate in {0, .1, .25} (null, raise, returned exception, wrong shape, list source raising after its items); @experimental_disableErrorPropagation on 30% of the operations; "
         "per request 6 (quick) / 10 (thorough) schedules x early execution in {off,on}. Non-trivial: the response was incremental (>= 1 subsequent payload); "
         "distinct = (document, variables, early, interleaving signature).")
 ASSUMPTIONS = ["when the *source* of a streamed list fails after items were delivered, those items cannot be taken back: such runs are judged by the refines relation "
@@ -65,6 +65,18 @@ def overlap_defer_doc(rng):
     return f'query Q {{ {parent} {{ {parts[0]} {parts[1]} }}{close} }}'
 
 
+_gen_inc = {}
+
+
+def generated_inc_schema(k):
+    if k not in _gen_inc:
+        from ..gen.schemas import with_incremental
+        from .c02 import generated_schema
+        gs = generated_schema(k)
+        _gen_inc[k] = None if gs is None else with_incremental(gs)
+    return _gen_inc[k]
+
+
 def gen_request(seed, p_defer=0.35, p_stream=0.35):
     schema = rich_inc()
     rng = random.Random(seed)
@@ -72,6 +84,11 @@ def gen_request(seed, p_defer=0.35, p_stream=0.35):
         return schema, split_defer_doc(rng), {}, rng
     if seed % 11 == 9:
         return schema, overlap_defer_doc(rng), {}, rng
+    if seed % 11 == 8:
+        # a generated valid schema (G-schema) with the experimental directives added, instead of the fixed one
+        gs = generated_inc_schema((seed * 7919) % 4000)
+        if gs is not None:
+            schema = gs
     g = DocGen(schema, rng, ops=('query',), max_depth=3, p_defer=p_defer, p_stream=p_stream)
     if rng.random() < 0.3:
         g.op_dirs = ' @experimental_disableErrorPropagation'
